@@ -80,14 +80,13 @@ theorem loop_pure (x : Str) (len : Nat) (parent : V) (body : M Unit) (f : V → 
     simp only [loopItems, M.run_bind, h1]
     simpa using h2
 
-/-- the body `{{ x }}` prints the element -/
-theorem print_var_writes (fuel : Nat) (env : Env) (x : Str) (len : Nat) (parent v : V) (i : Nat) :
-    WritesIn (renderList (renderN (fuel + 1) env) [.output (.var x []) []]) (iterRoot x len parent v i) v.render := by
+/-- the body `{{ x }}` prints what the innermost frame binds `x` to -/
+theorem print_var_writes_root (fuel : Nat) (env : Env) (x : Str) (d : Obj) (v : V) :
+    WritesIn (renderList (renderN (fuel + 1) env) [.output (.var x []) []]) (objInsert d x v) v.render := by
   intro rt w hi hb
   obtain ⟨w', hw, hb', ht⟩ := write_text w v.render hb
   refine ⟨w', ?_, hb', ht⟩
-  unfold iterRoot
-  generalize hroot : objInsert (objInsert [] "forloop".toList (forloopObj i len parent)) x v = root
+  generalize hroot : objInsert d x v = root
   have hget : Stack.get (.plain root :: rt.layers) [.str x] = .ok v := by
     rw [← hroot]; exact get_top_plain _ x v _
   have hchain : evalChain env (Layer.plain root :: rt.layers) (.var x []) [] = .ok v := by
@@ -96,6 +95,11 @@ theorem print_var_writes (fuel : Nat) (env : Env) (x : Str) (len : Nat) (parent 
     simp [Rt.regs, Stack.regs]
   simp only [renderList, renderN, List.cons_append, List.nil_append]
   simp [M.run_bind, hchain, M.emit, hw, hregs', hi]
+
+/-- the body `{{ x }}` prints the element -/
+theorem print_var_writes (fuel : Nat) (env : Env) (x : Str) (len : Nat) (parent v : V) (i : Nat) :
+    WritesIn (renderList (renderN (fuel + 1) env) [.output (.var x []) []]) (iterRoot x len parent v i) v.render :=
+  print_var_writes_root fuel env x _ v
 
 /-- the whole loop over `items` with the body `{{ x }}` -/
 theorem loop_print (fuel : Nat) (env : Env) (x : Str) (len : Nat) (parent : V) (items : List V)
@@ -152,5 +156,84 @@ theorem print_forloop_field_writes (fuel : Nat) (env : Env) (x : Str) (len : Nat
     WritesIn (renderList (renderN (fuel + 1) env) [.output (.var "forloop".toList [.lit (.sc (.str k))]) []])
       (iterRoot x len parent v i) fv.render :=
   print_path2_writes fuel env _ _ k fv (fun below => get_forloop_field x len parent v i k fv below hx hf)
+
+
+/-! ### tablerow -/
+
+/-- the frame of cell `i` of `len` in a table of `ncols` columns -/
+def cellRoot (x : Str) (len ncols : Nat) (v : V) (i : Nat) : Obj :=
+  objInsert (objInsert [] "tablerow".toList (tablerowObj i len (i % ncols) (usizeAsI64 ncols))) x v
+
+/-- what one cell writes around the body's text `s` -/
+def cellText (len ncols i : Nat) (s : Str) : Str :=
+  (if i % ncols == 0 then "<tr class=\"row".toList ++ natDigits (i / ncols + 1) ++ "\">".toList else []) ++
+  ("<td class=\"col".toList ++ natDigits (i % ncols + 1) ++ "\">".toList) ++ s ++ "</td>".toList ++
+  (if (((i % ncols : Nat) : Int) + 1 == usizeAsI64 ncols) || ((i : Int) == (len : Int) - 1) then "</tr>".toList else [])
+
+theorem emit_text (s : Str) (rt : Rt) (w : W) (hb : w.budget = none) :
+    ∃ w', M.emit s rt w = (.ok (), rt, w') ∧ w'.budget = none ∧ w'.text = w.text ++ s := by
+  obtain ⟨w', hw, hb', ht⟩ := write_text w s hb
+  exact ⟨w', by simp [M.emit, hw], hb', ht⟩
+
+/-- one cell whose body is a pure printer -/
+theorem tablerowStep_pure (x : Str) (len ncols : Nat) (hn : ncols ≠ 0) (v : V) (i : Nat) (body : M Unit) (s : Str)
+    (hbody : WritesIn body (cellRoot x len ncols v i) s)
+    (rt : Rt) (w : W) (hi : rt.regs.interrupt = none) (hb : w.budget = none) :
+    ∃ w', tablerowStep x len ncols body v i rt w = (.ok (), rt, w') ∧ w'.budget = none ∧
+      w'.text = w.text ++ cellText len ncols i s := by
+  have hn' : (ncols == 0) = false := by simpa using hn
+  unfold tablerowStep cellText
+  simp only [hn', Bool.false_eq_true, if_false]
+  have hb0 := hbody
+  unfold cellRoot at hb0
+  generalize ((((i % ncols : Nat) : Int) + 1 == usizeAsI64 ncols) || ((i : Int) == (len : Int) - 1)) = colLast
+  generalize (i % ncols == 0) = c0
+  generalize ("<tr class=\"row".toList ++ natDigits (i / ncols + 1) ++ "\">".toList) = sRow
+  generalize ("<td class=\"col".toList ++ natDigits (i % ncols + 1) ++ "\">".toList) = sCol
+  generalize "</td>".toList = sTd
+  generalize "</tr>".toList = sTr
+  generalize objInsert (objInsert [] "tablerow".toList (tablerowObj i len (i % ncols) (usizeAsI64 ncols))) x v = root at hb0
+  have inF : ∀ w2, w2.budget = none → ∃ w3, M.inFrames [Layer.plain root] body rt w2 = (.ok (), rt, w3) ∧
+      w3.budget = none ∧ w3.text = w2.text ++ s := by
+    intro w2 b2
+    obtain ⟨w3, e3, b3, t3⟩ := hb0 rt w2 hi b2
+    exact ⟨w3, by unfold M.inFrames; rw [e3]; simp, b3, t3⟩
+  cases c0 <;> cases colLast
+  · obtain ⟨w2, e2, b2, t2⟩ := emit_text sCol rt w hb
+    obtain ⟨w3, e3, b3, t3⟩ := inF w2 b2
+    obtain ⟨w4, e4, b4, t4⟩ := emit_text sTd rt w3 b3
+    exact ⟨w4, by simp [M.run_bind, e2, e3, e4], b4, by simp [t4, t3, t2, List.append_assoc]⟩
+  · obtain ⟨w2, e2, b2, t2⟩ := emit_text sCol rt w hb
+    obtain ⟨w3, e3, b3, t3⟩ := inF w2 b2
+    obtain ⟨w4, e4, b4, t4⟩ := emit_text sTd rt w3 b3
+    obtain ⟨w5, e5, b5, t5⟩ := emit_text sTr rt w4 b4
+    exact ⟨w5, by simp [M.run_bind, e2, e3, e4, e5], b5, by simp [t5, t4, t3, t2, List.append_assoc]⟩
+  · obtain ⟨w1, e1, b1, t1⟩ := emit_text sRow rt w hb
+    obtain ⟨w2, e2, b2, t2⟩ := emit_text sCol rt w1 b1
+    obtain ⟨w3, e3, b3, t3⟩ := inF w2 b2
+    obtain ⟨w4, e4, b4, t4⟩ := emit_text sTd rt w3 b3
+    exact ⟨w4, by simp [M.run_bind, e1, e2, e3, e4], b4, by simp [t4, t3, t2, t1, List.append_assoc]⟩
+  · obtain ⟨w1, e1, b1, t1⟩ := emit_text sRow rt w hb
+    obtain ⟨w2, e2, b2, t2⟩ := emit_text sCol rt w1 b1
+    obtain ⟨w3, e3, b3, t3⟩ := inF w2 b2
+    obtain ⟨w4, e4, b4, t4⟩ := emit_text sTd rt w3 b3
+    obtain ⟨w5, e5, b5, t5⟩ := emit_text sTr rt w4 b4
+    exact ⟨w5, by simp [M.run_bind, e1, e2, e3, e4, e5], b5, by simp [t5, t4, t3, t2, t1, List.append_assoc]⟩
+
+/-- the whole table: the cells in order -/
+theorem table_pure (x : Str) (len ncols : Nat) (hn : ncols ≠ 0) (body : M Unit) (f : V → Nat → Str)
+    (hbody : ∀ v i, WritesIn body (cellRoot x len ncols v i) (f v i)) (items : List V) :
+    ∀ (i : Nat) (rt : Rt) (w : W), rt.regs.interrupt = none → w.budget = none →
+    ∃ w', tableItems (tablerowStep x len ncols body) items i rt w = (.ok (), rt, w') ∧ w'.budget = none ∧
+      w'.text = w.text ++ ((items.zipIdx i).map fun (v, j) => cellText len ncols j (f v j)).flatten := by
+  induction items with
+  | nil => intro i rt w hi hb; exact ⟨w, by simp [tableItems], hb, by simp⟩
+  | cons v r ih =>
+    intro i rt w hi hb
+    obtain ⟨w1, h1, hb1, ht1⟩ := tablerowStep_pure x len ncols hn v i body (f v i) (hbody v i) rt w hi hb
+    obtain ⟨w2, h2, hb2, ht2⟩ := ih (i + 1) rt w1 hi hb1
+    refine ⟨w2, ?_, hb2, by simp [ht2, ht1, List.zipIdx_cons]⟩
+    simp only [tableItems, M.run_bind, h1]
+    exact h2
 
 end Liquid.ForNode
